@@ -706,6 +706,7 @@ func (c *updater) buildBackendOAuth(d *backData) {
 
 		// starting here the auth backend should be configured or requests should be denied
 		// AlwaysDeny will be changed to false if the configuration succeed
+		authURLAlwaysDeny := path.AuthExternal.AlwaysDeny
 		path.AuthExternal.AlwaysDeny = true
 
 		if oauth.Value != "oauth2_proxy" && oauth.Value != "oauth2-proxy" {
@@ -719,7 +720,8 @@ func (c *updater) buildBackendOAuth(d *backData) {
 		}
 		if authURL := d.mapper.Get(ingtypes.BackAuthURL); authURL.Value != "" {
 			c.logger.Warn("ignoring oauth configuration on %v: auth-url was configured and has precedence", authURL.Source)
-			path.AuthExternal.AlwaysDeny = false
+			// auth-url decides: it continues to deny if its own configuration failed
+			path.AuthExternal.AlwaysDeny = authURLAlwaysDeny
 			continue
 		}
 		uriPrefix := "/oauth2"
